@@ -218,6 +218,7 @@ func c17exec(j run.Job, a *run.Acc) {
 	}
 	for v := 0; v < j.N; v++ { // v: variant (randomised terminals / shapes)
 		seed := j.Seed + int64(v)*7919
+		prevCalls := map[int]int{}
 		for _, n := range sizes {
 			if !f.judged && n > 64 {
 				continue // information only: cubic work with long result lists, not worth the minutes
@@ -226,7 +227,21 @@ func c17exec(j run.Job, a *run.Acc) {
 				continue
 			}
 			a.Count("size pairs (n, 2n)", 1)
-			base, in1 := c17run(f, seed, n, 0)
+			// the length-n run is bounded as well, so that a regression cannot hang the check: 16 x the count of
+			// the previous (half) size, or 10^6 calls for the smallest size
+			baseLimit := 1000000
+			if prev, ok := prevCalls[n/2]; ok {
+				baseLimit = 16*prev + 1000
+				if !f.judged {
+					baseLimit = 400 * prev
+				}
+			}
+			base, in1 := c17run(f, seed, n, baseLimit)
+			if base.over {
+				a.Violate("call-budget-exceeded-at-base-size", "call-budget-exceeded-at-base-size", map[string]any{"family": f.name, "variant_seed": seed, "n": n, "limit": baseLimit})
+				break
+			}
+			prevCalls[n] = base.calls
 			d := map[string]any{"family": f.name, "variant_seed": seed, "n": n, "input_n": trunc(in1, 80), "calls_n": base.calls}
 			if base.panicv != "" || !base.ok {
 				d["panic"] = base.panicv
@@ -235,7 +250,7 @@ func c17exec(j run.Job, a *run.Acc) {
 			}
 			// determinism: three runs with freshly constructed grammars
 			for k := 0; k < 2; k++ {
-				again, _ := c17run(f, seed, n, 0)
+				again, _ := c17run(f, seed, n, baseLimit)
 				if again.calls != base.calls {
 					d["calls_again"] = again.calls
 					a.Violate("call-count-not-deterministic", "call-count-not-deterministic", d)
